@@ -70,21 +70,92 @@ Proof.
   - destruct k as [|k]; [reflexivity|]. cbn [beacon_entries skipn firstn beta_end]. apply IH.
 Qed.
 
+(** the entries [update_macs] produces, as a recursion over the unsigned entries: like
+    [beacon_entries], but the peer entries are MACed over [beta_i] or [beta_(i+1)] according
+    to the regenerated flag *)
+Fixpoint code_entries (beta ts : N) (us : list uentry) : list sentry :=
+  match us with
+  | [] => []
+  | u :: r =>
+    let sigma := umac mac (ue_key u) beta ts (ue_hop u) in
+    let beta' := beta_step beta sigma in
+    let pb := if update_macs_peer_next_beta then beta' else beta in
+    mkSEntry (ue_ia u) (mk_hop (ue_hop u) sigma)
+             (map (fun '(pia, pif, ph) => (pia, pif, mk_hop ph (umac mac (ue_key u) pb ts ph))) (ue_peers u))
+    :: code_entries beta' ts r
+  end.
+
 Lemma code_beacon_aux b ts us acc :
-  update_macs_peer_next_beta = true ->
   fold_left (fun acc u => acc ++ [code_update_macs mac b ts acc u]) us acc
-  = acc ++ beacon_entries mac (chain_beta b acc) ts us.
+  = acc ++ code_entries (chain_beta b acc) ts us.
 Proof.
-  intros G. revert acc. induction us as [|u r IH]; intros acc; cbn [fold_left beacon_entries].
+  revert acc. induction us as [|u r IH]; intros acc; cbn [fold_left code_entries].
   - rewrite app_nil_r. reflexivity.
   - rewrite IH. rewrite <- app_assoc. cbn [app]. f_equal.
-    unfold code_update_macs. rewrite G. f_equal.
-    rewrite chain_beta_app. reflexivity.
+    unfold code_update_macs. f_equal. rewrite chain_beta_app. reflexivity.
+Qed.
+
+Lemma code_beacon_entries b ts us : sg_entries (code_beacon mac b ts us) = code_entries b ts us.
+Proof. unfold code_beacon. cbn [sg_entries]. rewrite (code_beacon_aux b ts us []). reflexivity. Qed.
+
+(** without peer entries the code builds the specification's beacon *)
+Lemma code_entries_no_peers : forall us b ts,
+  has_peer_entries us = false -> code_entries b ts us = beacon_entries mac b ts us.
+Proof.
+  induction us as [|u r IH]; intros b ts H; [reflexivity|].
+  cbn [has_peer_entries existsb] in H. apply orb_false_iff in H. destruct H as (H1 & H2).
+  cbn [code_entries beacon_entries]. rewrite (IH _ _ H2).
+  destruct (ue_peers u); [reflexivity|discriminate].
 Qed.
 
 Lemma code_beacon_is_beacon b ts us :
-  update_macs_peer_next_beta = true -> code_beacon mac b ts us = beacon mac b ts us.
-Proof. intros G. unfold code_beacon, beacon. rewrite (code_beacon_aux b ts us [] G). reflexivity. Qed.
+  has_peer_entries us = false -> code_beacon mac b ts us = beacon mac b ts us.
+Proof.
+  intros H. unfold code_beacon, beacon. rewrite (code_beacon_aux b ts us []). cbn [app].
+  unfold chain_beta. cbn [fold_left]. rewrite (code_entries_no_peers us b ts H). reflexivity.
+Qed.
+
+(** with peer entries: the AS sequence and every regular hop field (hence the whole SegID
+    chain) still agree; only peer-entry MACs can differ *)
+Lemma code_entries_hops : forall us b ts,
+  map se_hop (code_entries b ts us) = map se_hop (beacon_entries mac b ts us)
+  /\ map se_ia (code_entries b ts us) = map se_ia (beacon_entries mac b ts us).
+Proof.
+  induction us as [|u r IH]; intros b ts; [split; reflexivity|].
+  cbn [code_entries beacon_entries map se_hop se_ia]. destruct (IH (beta_step b (umac mac (ue_key u) b ts (ue_hop u))) ts) as (A & B).
+  rewrite A, B. split; reflexivity.
+Qed.
+
+Lemma chain_beta_hops b es es' : map se_hop es = map se_hop es' -> chain_beta b es = chain_beta b es'.
+Proof.
+  revert b es'. induction es as [|e es IH]; intros b [|e' es'] H; try discriminate; [reflexivity|].
+  cbn [map] in H. inversion H as [[H1 H2]]. unfold chain_beta in *. cbn [fold_left]. rewrite H1. apply IH. exact H2.
+Qed.
+
+Lemma map_firstn_eq {A B} (f : A -> B) : forall n l l', map f l = map f l' -> map f (firstn n l) = map f (firstn n l').
+Proof. intros n l l' H. rewrite <- !firstn_map, H. reflexivity. Qed.
+Lemma map_skipn_eq {A B} (f : A -> B) : forall n l l', map f l = map f l' -> map f (skipn n l) = map f (skipn n l').
+Proof. intros n l l' H. rewrite <- !skipn_map, H. reflexivity. Qed.
+
+(** a use WITHOUT peering hop reads regular hop fields only: on code-built segments it is the
+    same use as on the specification's beacon, peer entries or not *)
+Lemma nonpeer_use_code_eq b ts us k cons :
+  use_hops (mkUse (code_beacon mac b ts us) k None cons) = use_hops (mkUse (beacon mac b ts us) k None cons)
+  /\ use_info (mkUse (code_beacon mac b ts us) k None cons) = use_info (mkUse (beacon mac b ts us) k None cons).
+Proof.
+  destruct (code_entries_hops us b ts) as (Hh & _).
+  assert (Hl : length (code_entries b ts us) = length (beacon_entries mac b ts us)).
+  { rewrite <- (map_length se_hop), Hh, map_length. reflexivity. }
+  split.
+  - unfold use_hops. cbn [us_seg us_k us_peer us_cons]. rewrite code_beacon_entries. cbn [beacon sg_entries].
+    pose proof (map_skipn_eq se_hop k _ _ Hh) as Hs.
+    destruct (skipn k (code_entries b ts us)) as [|e0 r0]; destruct (skipn k (beacon_entries mac b ts us)) as [|e1 r1];
+      cbn [map] in Hs; try discriminate; [reflexivity|].
+    inversion Hs as [[H1 H2]]. rewrite H1, H2. reflexivity.
+  - unfold use_info, init_segid. cbn [us_seg us_k us_peer us_cons sg_ts sg_beta0]. rewrite code_beacon_entries.
+    cbn [beacon sg_entries sg_ts sg_beta0 code_beacon]. rewrite Hl. f_equal.
+    apply chain_beta_hops. apply map_firstn_eq. exact Hh.
+Qed.
 
 (** * the chain invariant *)
 
